@@ -58,13 +58,12 @@ theorem quic_connection_exact_from (hl : H.Lawful) (L : SealLaws Pc)
     QM.out false (feedAll QM c1 itemsB) =
       expectedOutX c ((d0 :: itemsA.map (·.2.2)).map DgY.eff) (itemsB.map (·.2.2)) ∧
     c1.raised = none ∧ c1.client = c.client ∧
-    Est H Pc [] sel .v1 (rfcGen (hashOf H sel.hash) sel.keyLen sa ca 0) (quicHp (hashOf H sel.hash) ca sel.keyLen)
-      (quicHp (hashOf H sel.hash) sa sel.keyLen)
-      (chachaOf (((d0 :: itemsA.map (·.2.2)).map DgY.eff).foldl Trk.dgx t0).core) c1.st 0 0
-      (((d0 :: itemsA.map (·.2.2)).map DgY.eff).foldl Trk.dgx t0).tc.app
-      (((d0 :: itemsA.map (·.2.2)).map DgY.eff).foldl Trk.dgx t0).ts.app
+    HsSt H dcid0 sel ch sh ca sa true (noOut c1.st)
+      (((d0 :: itemsA.map (·.2.2)).map DgY.eff).foldl Trk.dgx t0).tc
+      (((d0 :: itemsA.map (·.2.2)).map DgY.eff).foldl Trk.dgx t0).ts
       (((d0 :: itemsA.map (·.2.2)).map DgY.eff).foldl Trk.dgx t0).cc
-      (((d0 :: itemsA.map (·.2.2)).map DgY.eff).foldl Trk.dgx t0).sc := by
+      (((d0 :: itemsA.map (·.2.2)).map DgY.eff).foldl Trk.dgx t0).sc
+      (((d0 :: itemsA.map (·.2.2)).map DgY.eff).foldl Trk.dgx t0).core := by
   intro QM c1
   have hkeys := keys_of_ys maskFn H Pc L dcid0 sel selR sh ch sa ca e t0 ecs0 _ hok
   obtain ⟨hm0, hms⟩ := hok
@@ -98,7 +97,7 @@ theorem quic_connection_exact_from (hl : H.Lawful) (L : SealLaws Pc)
     (fun x hx => by
       obtain ⟨u1, u2, u3⟩ := hcarB x hx
       exact ⟨u1, u2, by rw [e5]; exact u3⟩) hsend
-  refine ⟨f1, ?_, i1, e5, hest⟩
+  refine ⟨f1, ?_, i1, e5, i2⟩
   have hexpo : expo (feedAll QM c1 itemsB).st.out =
       expo ((((d0 :: itemsA.map (·.2.2)).map DgY.eff).flatMap fun d => d.zrOut ++ d.base.shortOut) ++
         (itemsB.map (·.2.2)).flatMap fun d => expectedOf .rtt1 d.x) := by
